@@ -1,0 +1,8 @@
+//go:build verif
+// +build verif
+
+// Contracts for the deductive verifier in /verif (govc). Comment-only: no executable code.
+package flowcontrols
+
+//@ interface (UpstreamLimiter).GetOrDefault props C01
+//@   pure
